@@ -63,7 +63,10 @@ TAGSETS = [[], [], [], ['food'], ['income'], ['Income'], ['transfer'], ['TRANSFE
 CATS = [('Food', 'Grocery'), ('Food', 'Restaurant'), ('Bills', 'Power'), ('', ''), ('Unknown', 'Unknown'), ('Unknown', 'x'),
         ('Fun "x"', "o'k"), ('</script>', JS_PH), ('Food', ''), ('Café', '日本')]
 SOURCES = ['Amex', 'Chase "x"', 'B\\A', '</script>']
-EXTRAS = [None, None, None, {'note': 'x</script>'}, {'memo': 'é"q"'}, {'k</script>': JS_PH}, {'a': '1', 'b': '2'}]
+EXTRAS = [None, None, None, {'note': 'x</script>'}, {'memo': 'é"q"'}, {'k</script>': JS_PH}, {'a': '1', 'b': '2'},
+          # blank / falsy values are data too (extract() without a match gives '', an empty lookup [])
+          {'po': ''}, {'invoice': '11', 'po': ''}, {'invoice': '', 'po': ''}, {'n': None}, {'l': []}, {'z': 0, 'f': False},
+          {'l': ['']}, {'': 'x'}, {'sp': ' '}]
 CURRENCIES = ['${amount}', '${amount}', '{amount} zl', '€{amount}']
 VIEWSETS = [
     None, None,
@@ -90,6 +93,15 @@ def gen_txn(rnd, names, adversarial):
     if rnd.random() < .1:
         t['loc'] = 'WA'
     return t
+
+
+def derived_placeholders():
+    """Placeholder texts of the tree under test (fallback: the three known ones)."""
+    try:
+        got = c12_report2coq.replaced_texts(SRC)
+    except Exception:  # noqa
+        got = []
+    return got + [p for p in PH if p not in got]
 
 
 def merchant_consistent(txns):
@@ -131,6 +143,16 @@ def gen_cases(seed, n):
         cases.append(case([T('Acme', 'plain', 640, c=cat, s=sub), T('Bolt', 'p', 320, c=cat, s='Other')]))
     for ex in EXTRAS[3:]:
         cases.append(case([T('Acme', 'plain', 640, extra=ex)]))
+        cases.append(case([T('Acme', 'plain', 640, extra=ex), T('Bolt', 'p', 320, c='Bills', s='Power', extra={'note': 'kept'})], views=VIEWSETS[3]))
+    # every text the report replaces in the template (derived from report.py and the template on this tree) as data
+    for ph in derived_placeholders():
+        for d in (ph, 'x ' + ph + ' y', '</title><script>' + ph + '</script>', ph + ph):
+            cases.append(case([T('Acme', d, 640)]))
+        cases.append(case([T(ph, 'plain', 640, tags=[ph], c=ph, s=ph, extra={'k': ph}, src=ph), T('Ref', 'r', -192)],
+                          views='[Total]\ndescription: ' + ph + '\nfilter: True\n', sources=[ph]))
+        cases.append(case([T('Acme', 'a ' + ph, 640)], tpl=None))
+    for d in ('{amount}', '${amount}', '{year}', '{0}', '%s %d', '{{x}}', '$&', '\\1', '\\g<0>'):
+        cases.append(case([T('Acme', d, 640, tags=[d])], cur=CURRENCIES[2]))
     for src in SOURCES:
         cases.append(case([T('Acme', 'plain', 640, src=src)], sources=[src]))
     # signs / totals: negative and zero totals, all-non-positive (markdown renders), specials
